@@ -11,6 +11,8 @@ Clause(e) ==
   IF e.warm # e.cold THEN "HistoryFree.differsFromColdRun"
   ELSE IF ~e.input_intact THEN "InputMutated"
   ELSE IF ~e.earlier_intact THEN "EarlierResultChangedByLaterCall"
+  ELSE IF ~e.results_disjoint THEN "ResultSharesContainerWithEarlierResult"
+  ELSE IF ~e.result_independent_of_input THEN "ResultChangedByMutatingItsInput"
   ELSE ""
 
 TraceInit == l = 1
